@@ -124,6 +124,8 @@ class Run:
             "violations": self.violations,
         }
         p = os.path.join(ROOT, "evidence", "%s.json" % self.pid)
+        if os.path.realpath(REPO) != "/repo":
+            p = self.path("evidence-%s.json" % self.pid)   # scratch copies (mutation runs) never touch evidence/
         with open(p + ".tmp", "w") as f:
             json.dump(ev, f, indent=1, default=str)
         os.replace(p + ".tmp", p)
